@@ -23,7 +23,7 @@ LEVEL = "model_checking"
 SHARDS = 4
 RULE = (
     "all ordered forests with <= N nodes (node = scope construct or probe message) x full product of "
-    "labels: construct in 10 kinds (incl. context()/run() of an already finished action), re-entry target k in {0,1,2}, exit in {fall through, Exception / "
+    "labels: construct in 10 kinds (incl. context()/run() of an already finished action), re-entry target k in {0,1,2}, fault in {none, destination raises BaseException on the end message, own logger raises on the end message}, exit in {fall through, Exception / "
     "BaseException caught here, Exception / BaseException propagating to the top}; states = distinct reference context stacks reached (as "
     "tuples of construct kinds), transitions = scope entries + exits executed; non-trivial = tree with "
     "nesting depth >= 2 or a raise"
@@ -37,7 +37,9 @@ KINDS = ["with", "context", "run", "re-context", "re-run", "start_task", "genera
          "context-of-finished-action", "run-of-finished-action"]
 # exit: 0 fall through, 1 Exception caught right outside, 2 Exception propagating to the top,
 #       3 BaseException caught right outside, 4 BaseException propagating to the top
-SCHEMA = {"m": [], "a": [("c", 10), ("k", 3), ("exit", 5)]}
+# fault: 0 none; 1 a destination raises a BaseException while it is handed this action's end message;
+#        2 the action has its own logger whose write() raises on the end message
+SCHEMA = {"m": [], "a": [("c", 10), ("k", 3), ("exit", 5), ("fault", 3)]}
 
 
 def BOUNDS(tier):
@@ -69,7 +71,7 @@ def _valid(p):
             c = s[1].get("c", 0)
             k = s[1].get("k", 0)
             if c in (3, 4):
-                if k >= depth:
+                if k >= depth or s[1].get("fault", 0):
                     return False
                 d2 = depth
             else:
@@ -101,6 +103,21 @@ class BaseBoom(BaseException):
     """Not an Exception: like KeyboardInterrupt / CancelledError / GeneratorExit."""
 
 
+class FaultBoom(BaseBoom):
+    """Raised by the logging machinery itself (destination / logger) while an end message is written."""
+
+    up = 1
+
+
+class FaultyLogger(object):
+    """An action's own logger; writing the action's end message fails."""
+
+    def write(self, dictionary, serializer=None):
+        if dictionary.get("action_status") in ("succeeded", "failed"):
+            raise FaultBoom("logger")
+        eliot._output._DEFAULT_LOGGER.write(dictionary, serializer)
+
+
 def run_case(prog):
     viol = []
     counts = {"transitions": 0}
@@ -109,6 +126,13 @@ def run_case(prog):
     def go():
         seen = world.capture()
         stack = []  # (action, kind)
+        targets = set()
+
+        def faulty_destination(m):
+            if m.get("action_status") in ("succeeded", "failed") and (m["task_uuid"], tuple(m["task_level"][:-1])) in targets:
+                raise FaultBoom("destination")
+
+        eliot.add_destinations(faulty_destination)
 
         def expect():
             return stack[-1][0] if stack else None
@@ -153,9 +177,14 @@ def run_case(prog):
                 return
             child_ok(m["task_level"], m["task_uuid"], expect(), "message")
 
-        def new_action(task=False):
+        def new_action0(task=False, fault=0):
             parent = expect()
-            a = (start_task if task else start_action)(action_type="s")
+            if fault == 2:
+                a = (start_task if task else start_action)(FaultyLogger(), action_type="s")
+            else:
+                a = (start_task if task else start_action)(action_type="s")
+            if fault == 1:
+                targets.add((a.task_uuid, tuple(a._task_level.as_list())))
             if task:
                 if a._task_level.as_list() != [] or any(a.task_uuid == x.task_uuid for x, _ in stack):
                     viol.append(("start_task-not-a-new-tree", {"level": a._task_level.as_list()}))
@@ -220,6 +249,11 @@ def run_case(prog):
 
         def scope(s, c):
             kind = KINDS[c]
+            fault = s[1].get("fault", 0)
+
+            def new_action(task=False):
+                return new_action0(task, fault)
+
             if c in (0, 5):
                 a = new_action(task=(c == 5))
                 with a:
